@@ -43,7 +43,8 @@ class Ldmcsu(Gate):
 
     def __init__(self, unitary, num_controls, ctrl_state: str = None):
 
-        check_u2(np.asarray(unitary))
+        unitary = np.asarray(unitary)
+        check_u2(unitary)
         check_su2(unitary)
         self.unitary = unitary
         self.controls = QuantumRegister(num_controls)
